@@ -16,7 +16,7 @@ func init() {
 		ID:    "C18",
 		Title: "Properties are last-writer-wins and replicas converge",
 		Decides: "repair never overwrites newer state: in shard.repair the document update is unreachable when the newest local revision is greater than the incoming one, or equal with the same delete time, and reachable when it is older (or equal with a different tombstone state); the local documents are sorted by revision before the newest is read; " +
-			"the query-side de-duplication (sorted and unsorted) replaces an entry only by a strictly higher revision; the newest previous revision is chosen over all documents, tombstones included; the Apply strategies are exactly those of the proto enum.",
+			"the query-side de-duplication (sorted and unsorted) replaces an entry only by a strictly higher revision; the newest previous revision is chosen over all documents, tombstones included; the Apply strategies are exactly those of the proto enum.; Query writes a tag projection only into a property object it allocated itself (never into the object queued for read-repair)",
 		NotDecided: "map equivalence over histories, convergence under gossip orders, Merkle-tree logic, tag merge contents.",
 		Technique:  "SSA path search under hypothetical orderings of two revisions (relational world pruning); comparator truth table; CFG dominance; enum agreement; SSA def-use of the entry removed from the ordered buffer",
 		Run:        runC18,
@@ -154,6 +154,32 @@ func runC18(c *core.Ctx) {
 		}
 	}
 	r.Floor("c18.dedup-keeps-newest", 2)
+	// Query hands the properties it found to read-repair; it must not edit them afterwards: a tag projection is
+	// applied to a fresh copy, never written into a property object the function did not allocate itself
+	if f := r.fn("c18.query-does-not-edit-found-properties", lg, "(*propertyServer).Query"); f != nil {
+		rule := "c18.query-does-not-edit-found-properties"
+		n := 0
+		for _, g := range append([]*ssa.Function{f}, f.AnonFuncs...) {
+			for _, b := range g.Blocks {
+				for _, in := range b.Instrs {
+					st, ok := in.(*ssa.Store)
+					if !ok {
+						continue
+					}
+					fa, ok := st.Addr.(*ssa.FieldAddr)
+					if !ok || !strings.HasSuffix(ssax.FieldQName(fa), "property/v1.Property.Tags") {
+						continue
+					}
+					n++
+					_, fresh := fa.X.(*ssa.Alloc)
+					r.Check(fresh, rule, fmt.Sprintf("%s: Tags store #%d writes into a property allocated here", ssax.FuncName(f), n), r.pos(in),
+						"the tag projection is written into a property object that came out of the search / dedup step — the same object that was queued for read-repair — so the repair later ships only the projected tags under the current revision and the lagging replica keeps a truncated value")
+				}
+			}
+		}
+		r.Floor(rule, 1)
+	}
+
 	// the entry taken out of the ordered buffer when a newer revision arrives is the one found in the seen map
 	if f := r.fn("c18.dedup-removes-superseded", lg, "(*propertyServer).sortedQueryWithDedup"); f != nil {
 		rule := "c18.dedup-removes-superseded"
